@@ -361,6 +361,7 @@ pub fn run(ctx: &Ctx) -> PropResult {
     wls.push(Workload::cases("offset_local_twins", ctx.count(4_000, 40_000), |rec, _, rng| super::localzone::twin_case(rec, rng, "C05", super::walk::Family::Months)));
     wls.push(Workload::cases("date_api_walks", ctx.count(20_000, 800_000), |rec, _, rng| super::walk::walk_date(rec, rng, "C05", super::walk::Family::Months)));
     wls.push(Workload::cases("api_walks", ctx.count(30_000, 1_500_000), |rec, _, rng| super::walk::walk(rec, rng, "C05", super::walk::Family::Months)));
+    wls.push(Workload::cases("trait_dispatch_vs_method_syntax", ctx.count(8_000, 200_000), |rec, _, rng| super::ufcs::case(rec, rng, "C05")));
     let out = run_workloads(ctx, wls);
     let mut meta = PropMeta::default();
     meta.rule = format!(
@@ -368,7 +369,8 @@ pub fn run(ctx: &Ctx) -> PropResult {
         days.len(),
         if quick { ", quick: days with dom < 28 thinned 6x" } else { "" }
     );
-    meta.required_bins = vec![
+    meta.rule.push_str(" The property's trait methods are also called through the trait (generic code / UFCS) and must agree with method syntax on the same operands (a type may grow inherent twins of its trait methods).");
+    meta.required_bins = vec!["trait-dispatch/compared", 
         "outward/local-reading-beyond-the-range-end",
         "date-walk/with-judged-steps",
         "sequence/sibling-calls",
